@@ -92,6 +92,10 @@ func (ucr *UnsignedChunkReader) Read(p []byte) (int, error) {
 		// Read and cache the payload
 		_, err = io.ReadFull(rdr, payload)
 		if err != nil {
+			if err == io.EOF {
+				// the stream ended where chunk data was announced
+				return 0, io.ErrUnexpectedEOF
+			}
 			return 0, err
 		}
 
